@@ -270,8 +270,8 @@ def evaluate(ctx, impl_lines, model_lines, ncases):
         exp_p = track(E, init, s[:kk])
         if d["P"] != "%d,%d,%d" % exp_p:
             agg.add("position", rank, (d, "position %s differs from the position of the consumed prefix %d,%d,%d" % ((d["P"],) + exp_p)))
-        if "bump" in ways and d["M"] == "lazy" and int(d["B"]) != exp_p[0] and lazy_byte_note is None:
-            lazy_byte_note = "lazy byte() = current - begin ignores the initial byte counter: %s: byte() = %s, position().byte = %d" % (describe(d), d["B"], exp_p[0])
+        if "bump" in ways and d["M"] == "lazy" and int(d["B"]) != exp_p[0]:
+            agg.add("lazy byte()", rank, (d, "lazy byte() = %s differs from position().byte = %d" % (d["B"], exp_p[0])))
         if "bump" in ways and d["M"] == "eager" and int(d["B"]) != exp_p[0]:
             agg.add("eager byte()", rank, (d, "eager byte() = %s differs from position().byte = %d" % (d["B"], exp_p[0])))
         exp = (str(kk), str(lb), str(le), hx(s[lb:le]))
